@@ -78,6 +78,18 @@ func judgeSeq(c *Ctx, kinds []int, lex []string, tight bool, text string) {
 }
 
 func replayC05(c *Ctx, rule string, raw json.RawMessage) {
+	if rule == "C05.big" {
+		var bc struct {
+			Name string `json:"name"`
+		}
+		json.Unmarshal(raw, &bc)
+		for _, b := range bigStrings(c.U, gen.NewRand(c.Seed, 0xC05B)) {
+			if b.Name == bc.Name && c.Valid(b.S) != b.Valid {
+				c.Violation("big:"+b.Name, "C05.big", bc, "large input %q is valid=%v by construction but the library disagrees", b.Name, b.Valid)
+			}
+		}
+		return
+	}
 	var sc SeqCase
 	if err := json.Unmarshal(raw, &sc); err != nil {
 		fmt.Println("bad case:", err)
@@ -98,6 +110,7 @@ func runC05(c *Ctx, phase string) {
 		"only spellings inside the alphabet are generated (no suffixes on exception ids or deprecated-only ids, no operators abutting ids)")
 	c.Floor("ref_accept", 100)
 	c.Floor("ref_reject", 1000)
+	c.Floor("big_strings", 10)
 	if len(u.UnlistedStems) > 0 {
 		c.Floor("hostile_unknown_id_sequences", int64(len(u.UnlistedStems)))
 	}
@@ -138,6 +151,19 @@ func runC05(c *Ctx, phase string) {
 			}
 			if c.WantSample() && gen.Recognise(kinds) == gen.RefAccept && n >= 3 {
 				c.Sample(map[string]any{"kinds": kindNames(kinds), "loose": loose, "tight": tight, "grammar": "accept"})
+			}
+		}
+	}
+	// large inputs (valid by construction, or corrupted at one place): sizes beyond any plausible buffer / batch threshold
+	{
+		for bi, b := range bigStrings(u, gen.NewRand(c.Seed, 0xC05B)) {
+			if !c.Mine(bi) {
+				continue
+			}
+			got := c.Valid(b.S)
+			c.Inc("big_strings")
+			if got != b.Valid {
+				c.Violation("big:"+b.Name, "C05.big", map[string]any{"name": b.Name, "bytes": len(b.S)}, "large input %q (%d bytes, starts %q) is valid=%v by construction but the library says valid=%v", b.Name, len(b.S), trunc(b.S, 60), b.Valid, got)
 			}
 		}
 	}
